@@ -178,7 +178,7 @@ func (V *Verifier) runProperty(spec *propSpec) *checkResult {
 func (V *Verifier) report(spec *propSpec, res *checkResult, tier string, seed int, wall float64) int {
 	known := loadKnown()
 	id := spec.ID
-	replayDir := filepath.Join("/verif/replays", id)
+	replayDir := filepath.Join(outBase(), "replays", id)
 	_ = os.RemoveAll(replayDir)
 	nObl, nDis := 0, 0
 	byKind := map[string]int{}
@@ -325,8 +325,8 @@ func (V *Verifier) report(spec *propSpec, res *checkResult, tier string, seed in
 		"wall_s":      round2(wall),
 		"violations":  nViol,
 	}
-	_ = os.MkdirAll("/verif/evidence", 0o755)
-	writeJSON(filepath.Join("/verif/evidence", id+".json"), ev)
+	_ = os.MkdirAll(filepath.Join(outBase(), "evidence"), 0o755)
+	writeJSON(filepath.Join(outBase(), "evidence", id+".json"), ev)
 	for _, l := range knownLines {
 		fmt.Println(l)
 	}
@@ -419,4 +419,13 @@ func (V *Verifier) assumptionList(spec *propSpec) []string {
 	}
 	out = append(out, "integers are mathematical with the machine range asserted for every value and a no-overflow obligation on + - *")
 	return out
+}
+
+// outBase: where evidence and replays are written (/verif unless the
+// selftest redirects them while checking a scratch copy of the repository).
+func outBase() string {
+	if d := os.Getenv("BXV_OUT_BASE"); d != "" {
+		return d
+	}
+	return "/verif"
 }
